@@ -945,8 +945,12 @@ class TypeBlocks(ContainerOperand):
         '''
         func = partial(np.round, decimals=decimals)
         # for now, we do not expose application of rounding on a subset of blocks, but is doable by setting the column_key
+        blocks = []
+        for b in self._ufunc_blocks(column_key=NULL_SLICE, func=func):
+            b.flags.writeable = False
+            blocks.append(b)
         return self.__class__(
-                blocks=list(self._ufunc_blocks(column_key=NULL_SLICE, func=func)),
+                blocks=blocks,
                 dtypes=self._dtypes.copy(), # list
                 index=self._index.copy(),
                 shape=self._shape
